@@ -16,6 +16,12 @@ LATE = {
  'C11-f': 'the obligation "length untouched when a fixed-capacity backend refuses to grow" was added for this round, but the runner accepted ANY failure located in the refusing function as the expected panic and so hid it: the runner now never treats a contract assertion of the harness module as an expected failure',
  'C18-f': 'state at a library panic was not observable (Kani has no unwinding): core\'s unwrap/expect panic entry points are now replaced by observing twins that assert the HeapMem still describes the allocation it owns',
  'C03-g': 'no harness called an overridable provided method of the range iterators; the mutant adds O(1) `nth`/`nth_back` overrides that skip without destroying. Added the nth / nth_back contract (k1_handles::range_nth_h: skipped elements are destroyed, each once)',
+ 'C04-j': 'MISSED when first run: a new provided `Mem::element_size()` that only `StackNMem` overrides (SIZE / N) feeds `ElementPointer::size()`; the operation contracts run on the ghost backend, which takes the default. Added k1_views::inline_views_h: views and handle reports on the REAL Stack / StackN backends instantiated with slack bytes',
+ 'C12-i': 'MISSED when first run: same shape as C04-j (`Mem::size_bytes()` overridden by `StackMem` to SIZE, used by `spare_bytes_mut`). Caught by the same new harness (inline_views_stack10_u32)',
+ 'C12-j': 'MISSED when first run: `HeapMem` overrides the provided `MemResizable::expand_exact` with an align-1 first allocation; the heap harnesses called `expand` / `resize` only. Added k1_heap::heap_expand_exact_h (allocator protocol: element layout, exact growth)',
+ 'C11-i': 'MISSED when first run: the typed `AnyVecTyped::splice` pre-reserves against the full length; only the erased splice had a fixed-capacity instance. Added `splice_typed_api_fixed_e8` (result fits => capacity untouched, no refusal)',
+ 'C11-j': 'MISSED when first run: `Splice::drop` restores the full length around `reserve`, so a refusing fixed-capacity backend unwinds with yielded elements visible; there was no splice-beyond-capacity harness. Added `splice_fixed_overflow_e8` and the panic-view invariant at every fixed-capacity refusal (ghost `expand`)',
+ 'C09-i': 'MISSED when first run: `LazyClone::move_into::<KnownType>` copies bytes when the type is known and has no drop glue (the `downcast::<T>()` path); the lazy harness consumed with `move_into::<Unknown>` only. Depth-2 instances now consume with the known type',
  'C13-g': 'MISSED when first run (quick check of C13 exited 0): the removal-handle contract checked only the read view (`as_bytes_ptr`, size, type id); the mutant reroutes `as_bytes_mut_ptr` of the pop handle to element len-2. Added: mutable access and the mutable byte view of every removal handle address exactly the removed element (k2_remove::check_handle), and the drop-sink removal harnesses now also serve C13',
  'C14-h': 'no harness called a provided Iterator method of the reference iterators; written while the agent was still running, after predicting the miss from the task I had given it: k1_handles::iter_provided_h pins count / last / nth / nth_back / rev / fold against their next()-based definitions (bounded: 2 items)',
  'C01-c': 'the copy_bytes contract harness had no unwind bound, so a new loop without invariant made it run into the time limit (exit 2) instead of failing; it now has one, and a real-memory insert harness on 1-byte elements (k3_insert_u8) was added',
@@ -49,20 +55,28 @@ txt = '''
 
 Fresh sub-agents were each given only the text of one property and a scratch worktree of /repo (nothing from
 /verif) and asked for two changes that break the property, still compile and pass the 44 tests, and need
-something specific to manifest. Round 1: 18 agents (one per claimed property); rounds 2, 3 and 4: 10 + 6 + 8 agents, told only which
-*functions* earlier rounds had already used (round 4 was asked for two cooperating sites or multi-step histories). All %d changes
+something specific to manifest. Round 1: 18 agents (one per claimed property); rounds 2 to 5: 10 + 6 + 8 + 6 agents, told only which
+*functions* earlier rounds had already used (rounds 4 and 5 were asked for two cooperating sites, secondary paths - mutable / typed /
+provided-method twins - or multi-step histories). All %d changes
 were confirmed by me in the scratch worktree (`tools/seed_eval.sh`: suite green with the patch, demo fails with /
 passes without) and are kept under `/verif/seeded/<id>/` (`patch.diff`, `demo.rs`, `notes.md`, `meta.json`; ids
-`-a/-b` round 1, `-c/-d` round 2, `-e/-f` round 3, `-g/-h` round 4). `seeded/harmless-1` is the opposite: a behaviour-preserving refactor that must
+`-a/-b` round 1, `-c/-d` round 2, `-e/-f` round 3, `-g/-h` round 4, `-i/-j` round 5). `seeded/harmless-1` is the opposite: a behaviour-preserving refactor that must
 NOT be reported.
 
 Every seeded change is reported as a VIOLATION by the **quick** check of its property. Honest accounting: %d of
-the %d were predicted (before running them) to be missed, or (C13-g, C03-g, C11-f) were actually missed when first run,
+the %d were predicted (before running them) to be missed, or (C13-g, C03-g, C11-f and six of the twelve round-5 changes: C04-j, C09-i, C11-i, C11-j, C12-i, C12-j) were actually missed when first run,
 by the checks as they stood when the change arrived; for
 those the registry / harness was strengthened first — the table says how. What the misses had in common: the
 *contract* existed, but no *instance* exercised the configuration (element type without drop glue, zero-sized
 type, a different consumer of a lazy clone, the no-default-features build, an overflowing argument), or a state of
-a vector under construction inside the library was not observable to the ghost.
+a vector under construction inside the library was not observable to the ghost. Rounds 4 and 5 (which asked for
+*secondary paths*) exposed a structural blind spot as well: the operation contracts run on the ghost backend and
+through the primary entry point, so (a) a new provided trait method that only one *built-in* backend overrides, (b)
+the typed / mutable / known-type twin of a checked function and (c) provided `Iterator` methods overridden in the
+library were outside every contract. Each now has at least one harness (real inline backends with slack,
+`HeapMem::expand_exact`, typed splice on fixed storage, mutable handle views, known-type lazy consumption, pinned
+provided iterator methods), but the class is open-ended: a *new* function is under contract only if some
+harness reaches it, and `./check` has no way to notice a new public or overriding function that none reaches.
 
 | id | files changed | caught | reporting harnesses (quick tier) | first failed obligation | native replay reproduced | |
 |---|---|---|---|---|---|---|
